@@ -224,6 +224,39 @@ pub fn c19b_probes(ctx: &Ctx) -> Vec<Probe> {
             item_line: None,
         });
     }
+    // a type parameter with a conventional name next to an unrelated type whose path ends in
+    // the same identifier, used by kinds that do not use the parameter: their messages are not
+    // generic (C15) and can be named without type arguments
+    for n in WORDS.iter() {
+        let body = format!(
+            "pub mod limits {{ pub use svrt::prelude::Rec as {n}; }}\n\
+             pub struct Ctr<{n}> {{ _p: PhantomData<({n},)> }}\n\
+             #[contract]\n\
+             impl<{n}> Ctr<{n}> where {n}: Gen {{\n\
+             \x20   pub const fn new() -> Self {{ Self {{ _p: PhantomData }} }}\n\
+             \x20   #[sv::msg(instantiate)]\n\
+             \x20   fn inst(&self, ctx: InstantiateCtx, a: {n}) -> Result<Response, StdError> {{ unimplemented!() }}\n\
+             \x20   #[sv::msg(exec)]\n\
+             \x20   fn run(&self, ctx: ExecCtx, x: {n}) -> Result<Response, StdError> {{ unimplemented!() }}\n\
+             \x20   #[sv::msg(query)]\n\
+             \x20   fn ask(&self, ctx: QueryCtx, q: limits::{n}) -> Result<EchoA, StdError> {{ unimplemented!() }}\n\
+             \x20   #[sv::msg(sudo)]\n\
+             \x20   fn sys(&self, ctx: SudoCtx, s: Vec<limits::{n}>) -> Result<Response, StdError> {{ unimplemented!() }}\n\
+             }}\n\
+             fn _names_sudo(m: sv::SudoMsg) -> sv::SudoMsg {{ m }}\n\
+             fn _names_query(m: sv::QueryMsg) -> sv::QueryMsg {{ m }}\n\
+             fn _names_exec<T: Gen>(m: sv::ExecMsg<T>) -> sv::ExecMsg<T> {{ m }}\n"
+        );
+        out.push(Probe {
+            unit: Unit { name: format!("lookalike_{}", n.to_lowercase()), source: unit_source("sylvia", &body) },
+            want: Want::Compiles,
+            key: format!("lookalike-path:{n}"),
+            what: format!("a generic contract whose type parameter `{n}` coexists with an unrelated type `limits::{n}` does not compile (the messages of kinds that only use `limits::{n}` must not be generic)"),
+            nontrivial: true,
+            class: "param:lookalike-path".into(),
+            item_line: None,
+        });
+    }
     // two-parameter units drawn from the seed
     let tapes = crate::draw_tapes(ctx.seed ^ 0x19b, if ctx.quick() { 6 } else { 40 }, 4);
     for (i, t) in tapes.iter().enumerate() {
